@@ -133,14 +133,32 @@ func (lb *LoadBalancer) SupersededBy(successor *LoadBalancer) {
 }
 
 func (lb *LoadBalancer) ServeHTTP(w http.ResponseWriter, r *http.Request) {
+	lb.serve(w, r, nil)
+}
+
+// serve claims a target and sends the request to it. When admit is given it is
+// consulted once the claim has been registered with the target (so that a
+// drain started afterwards waits for the request): if it declines, the claim
+// is released again and serve returns false without having responded, leaving
+// it to the caller to decide what to do with the request.
+func (lb *LoadBalancer) serve(w http.ResponseWriter, r *http.Request, admit func() bool) bool {
 	target, req, err := lb.claimTarget(r)
 	verifPoint("lb.claimed", r, err)
 	if err != nil {
+		if errors.Is(err, ErrorDraining) && admit != nil && !admit() {
+			return false
+		}
 		SetErrorResponse(w, r, http.StatusServiceUnavailable, nil)
-		return
+		return true
+	}
+
+	if admit != nil && !admit() {
+		target.endInflightRequest(req)
+		return false
 	}
 
 	target.SendRequest(w, req)
+	return true
 }
 
 // TargetStateConsumer
